@@ -138,8 +138,48 @@ func execTree(r *rand.Rand, e *TreeEv) {
 	e.Nontriv = depth >= 2
 }
 
+// tiledRing: a rectangular ring assembled from edge-abutting (or corner-overlapping) bars, so that the hole
+// of the union only comes into being through joins / splits during the sweep
+func tiledRing(r *rand.Rand, x0, y0, x1, y1, t int64) Paths {
+	overlap := r.Intn(3) == 0
+	var s Paths
+	if overlap {
+		s = Paths{rectPath(x0, y0, x1, y0+t, true), rectPath(x0, y1-t, x1, y1, true),
+			rectPath(x0, y0, x0+t, y1, true), rectPath(x1-t, y0, x1, y1, true)}
+	} else {
+		s = Paths{rectPath(x0, y0, x1, y0+t, true), rectPath(x0, y1-t, x1, y1, true),
+			rectPath(x0, y0+t, x0+t, y1-t, true), rectPath(x1-t, y0+t, x1, y1-t, true)}
+	}
+	if r.Intn(3) == 0 { // split one bar in two abutting halves
+		m := (x0 + x1) / 2
+		s[0] = rectPath(x0, y0, m, y0+t, true)
+		s = append(s, rectPath(m, y0, x1, y0+t, true))
+	}
+	r.Shuffle(len(s), func(i, j int) { s[i], s[j] = s[j], s[i] })
+	return s
+}
+
 func genTreeInput(r *rand.Rand) (Paths, Paths) {
-	switch r.Intn(5) {
+	switch r.Intn(6) {
+	case 5: // tiled rings with islands (and rings inside rings)
+		t := int64(8)
+		s := tiledRing(r, 0, 0, 96, 96, t)
+		switch r.Intn(3) {
+		case 0:
+			s = append(s, rectPath(32, 32, 56, 56, r.Intn(2) == 0))
+		case 1:
+			s = append(s, tiledRing(r, 24, 24, 72, 72, t)...)
+			s = append(s, rectPath(40, 40, 56, 56, true))
+		default:
+			s = append(s, rectPath(16, 16, 40, 40, true), rectPath(56, 48, 80, 80, true))
+		}
+		var c Paths
+		if r.Intn(2) == 0 {
+			c = Paths{rectPath(int64(r.Intn(6))*8, int64(r.Intn(6))*8, int64(6+r.Intn(6))*8, int64(6+r.Intn(6))*8, true)}
+		} else {
+			c = Paths{}
+		}
+		return s, c
 	case 0: // deep nesting
 		s := nestedRings(r, int64(r.Intn(10)), int64(r.Intn(10)), 30+50*r.Float64(), 3+r.Intn(4))
 		c := nestedRings(r, int64(r.Intn(30)), int64(r.Intn(30)), 20+50*r.Float64(), 1+r.Intn(4))
